@@ -12,6 +12,8 @@ World scenarios (registry + weak sets + activations; C02, C04)
                                          a sequence of any length (split over the agents iff k = n)
   setagents m                            model.agents = […]  (rejected: err Attr)
   remove a | removeall m | unhold a
+  register a | deregister a              model.register_agent(a) / model.deregister_agent(a) called directly by the program
+                                         (deregister of an agent that is not registered: err Key)
   shuffle <tgt> | sort <tgt> asc|desc    in place
   mkset m a b c …                        AgentSet([...], random=model_m.random)
   script a <act> ; <act> …               act: rmself | rm b | create m ty n h | unhold b | add k b | discard k b | raise
@@ -158,6 +160,21 @@ def worldLine (st : WSt) (ws : List String) : WSt × String :=
   | ["remove", a] =>
     match a.toNat? with
     | some a => let w' := removeAgent w a; ({ st with w := w' }, okW w' "")   -- unknown agent: nothing to call
+    | none => bad
+  | ["register", a] =>
+    match a.toNat? with
+    | some a =>
+      let w' := if alive w a then registerAgain w a else w   -- a dead agent cannot be handed to the call
+      ({ st with w := w' }, okW w' "")
+    | none => bad
+  | ["deregister", a] =>
+    match a.toNat? with
+    | some a =>
+      if alive w a then
+        match deregisterDirect w a with
+        | some w' => ({ st with w := w' }, okW w' "")
+        | none => (st, "err Key")
+      else (st, okW w "")
     | none => bad
   | ["removeall", m] =>
     match m.toNat? with
